@@ -3,6 +3,9 @@
 import json, os
 here = os.path.dirname(os.path.abspath(__file__))
 meta = json.load(open(os.path.join(here, "props_meta.json")))
+import glob
+for f in sorted(glob.glob(os.path.join(here, "meta", "C*.json"))):
+    meta[os.path.basename(f)[:-5]] = json.load(open(f))
 ids = [json.loads(l)["id"] for l in open(os.path.join(here, "properties.jsonl")) if l.strip()]
 checks, na = [], []
 for pid in ids:
